@@ -78,6 +78,13 @@ def check_C09(c):
         jobs.append(('tr_stream', dict(text=s, model=c.rng.choice(['default', 'amr', 'noop']))))
     for s in corpus.graph_strings():
         jobs.append(('tr_stream', dict(text=s)))
+    # a quoted string that is broken over two lines (a string does not continue on the next line: a decode error in every
+    # container alike), after zero to two complete graphs
+    for brk in ('\n', '\r\n', '\r'):
+        for k in (0, 1, 2):
+            for t in ('(a / alpha :value "first line%ssecond line")', '(a / alpha :name "x%s" :ARG0 (b / beta))', '# ::snt ok\n(a / "al%spha")'):
+                s = '\n\n'.join(c.rng.sample(pool, k) + [t % brk]) + '\n'
+                jobs.append(('tr_stream', dict(text=s, model='default')))
     for _ in range(_q(c, 700, 5000)):
         k = c.rng.choice([0, 1, 2, 3])
         jobs.append(('tr_dumps', dict(texts=c.rng.sample(pool, k), model=c.rng.choice(['default', 'amr']), indent=c.rng.choice([None, -1, 0, 2]),
